@@ -20,6 +20,7 @@ type c17LogEntry struct {
 	call int
 	cb   int
 	at   time.Time
+	end  time.Time
 }
 
 type c17Call struct {
@@ -36,7 +37,7 @@ func init() {
 		Run:     runC17,
 		Rule: "seeded cases: SkipInterval in {negative,1ms,20ms,200ms,default}, 0..5 callbacks (nil and empty slice), phases of concurrent bursts (1..32 callers) and sequential calls separated by sleeps of {0, Skip/2, 1.3*Skip}; " +
 			"oracle over the callback log and the callers' call/return timestamps (monotonic bracketing only, never a deadline); distinct_nontrivial = distinct (interval, callbacks, phase pattern) cases with at least one accepted and one further call",
-		Required:    []string{"calls.accepted", "calls.rejected", "nothing_to_invalidate", "spacing.pairs", "must_accept.checked", "burst.cases"},
+		Required:    []string{"calls.accepted", "calls.rejected", "nothing_to_invalidate", "spacing.pairs", "must_accept.checked", "burst.cases", "chain.cases", "spacing.tightened_by_previous_run"},
 		Assumptions: []string{"monotonic clock readings of time.Now() are consistent across goroutines"},
 		Timeout:     func(string) time.Duration { return 20 * time.Minute },
 	})
@@ -84,6 +85,11 @@ func c17Case(b *Batch, idx int) {
 		effSkip = 15 * time.Second
 	}
 	nCb := rng.Intn(6)
+	chain := (skipName == "1ms" || skipName == "20ms") && rng.Intn(4) == 0
+	if chain && nCb == 0 {
+		nCb = 1
+	}
+	slowOnceDone := false
 	cbMode := "slice"
 	var mu sync.Mutex
 	var log []c17LogEntry
@@ -103,10 +109,19 @@ func c17Case(b *Batch, idx int) {
 			id, _ := ctx.Value(c17CallID{}).(int)
 			mu.Lock()
 			log = append(log, c17LogEntry{call: id, cb: c, at: time.Now()})
+			pos := len(log) - 1
+			first := !slowOnceDone
+			slowOnceDone = true
 			mu.Unlock()
 			if slow {
 				time.Sleep(50 * time.Microsecond)
 			}
+			if chain && c == 0 && first {
+				time.Sleep(effSkip*5/2 + time.Millisecond) // only the very first accepted run is slow
+			}
+			mu.Lock()
+			log[pos].end = time.Now()
+			mu.Unlock()
 		})
 	}
 	var calls []*c17Call
@@ -130,6 +145,19 @@ func c17Case(b *Batch, idx int) {
 	}
 	pattern := ""
 	hasBurst := false
+	if chain {
+		// X runs a slow first callback; Y arrives after SkipInterval while X is still running and waits for the lock longer
+		// than SkipInterval; Z and W follow immediately after Y returned
+		pattern = "chain/"
+		b.R.Count("chain.cases", 1)
+		var cw sync.WaitGroup
+		cw.Add(2)
+		go func() { defer cw.Done(); doCall(-1) }()
+		go func() { defer cw.Done(); time.Sleep(effSkip * 13 / 10); doCall(-1) }()
+		cw.Wait()
+		doCall(-1)
+		doCall(-1)
+	}
 	for p := 0; p < nPhases; p++ {
 		if p > 0 {
 			switch rng.Intn(3) {
@@ -251,7 +279,18 @@ func c17Case(b *Batch, idx int) {
 			continue
 		}
 		b.R.Count("spacing.pairs", 1)
-		if d := eb[0].at.Sub(A.c); d < effSkip {
+		// lower bound of the instant A was accepted: its call time, and the end of the previous accepted run (the lock is
+		// held while callbacks run, so A cannot have been accepted before the previous run finished)
+		lb := A.c
+		if i >= 2 {
+			if ep := byCall[accepted[i-2].id]; len(ep) > 0 {
+				if e := ep[len(ep)-1].end; !e.IsZero() && e.After(lb) {
+					lb = e
+					b.R.Count("spacing.tightened_by_previous_run", 1)
+				}
+			}
+		}
+		if d := eb[0].at.Sub(lb); d < effSkip {
 			fail("spacing", fmt.Sprintf("accepted calls %d and %d only %v apart (< SkipInterval %v)", A.id, B.id, d, effSkip))
 		}
 	}
